@@ -65,6 +65,14 @@ try:
         if r.returncode == 2:
             res[c]["stderr"] = r.stderr[-500:]
         sh(["git", "checkout", "-q", f"evidence/{c}.json"], cwd="/verif")
+    if not any(v["exit"] == 1 for v in res.values()) and "--all-checks" not in flags:
+        # missed by the property's own check: see whether any other registered check notices it
+        for c in [c["property_id"] for c in man["checks"] if c["property_id"] not in res]:
+            t0 = time.time()
+            r = sh(["./check", c, "--tier", "quick"], cwd="/verif", env=dict(env, VERIF_REPO=wt))
+            sigs = [l.strip()[len("violation signature "):].split(" (")[0] for l in r.stdout.splitlines() if l.strip().startswith("violation signature")]
+            res[c] = {"exit": r.returncode, "signatures": sigs[:12], "n_signatures": len(sigs), "wall_s": round(time.time() - t0, 1)}
+            sh(["git", "checkout", "-q", f"evidence/{c}.json"], cwd="/verif")
     meta["checks"] = res
     meta["detected_by"] = [c for c, v in res.items() if v["exit"] == 1]
     meta["confirmed"] = bool(rc0 == 0 and rc1 != 0 and meta.get("repo_suite_with_change", {"baseline_ok": True})["baseline_ok"])
